@@ -101,53 +101,56 @@ def gen_docs(tier):
                     for xs in (None, 'preserve', 'default'):
                         if xs and not (pat == 'sp'):
                             continue
-                        it = iter(labels)
-                        cnt = [0]
+                        # the same tree once more with a default namespace on the root: its unprefixed elements are then in a
+                        # namespace, and the unprefixed names of the declarations (no namespace) no longer match them
+                        for defns in ((False, True) if (pat == 'sp' and xs is None) else (False,)):
+                            it = iter(labels)
+                            cnt = [0]
 
-                        def gap():
-                            cnt[0] += 1
-                            k = cnt[0]
-                            if pat == 'sp':
-                                return ' '
-                            if pat == 'nl':
-                                return '\n\t'
-                            if pat == 'alt':
-                                return ' ' if k % 2 else 't'
-                            if pat == 'first':
-                                return ' ' if k == 1 else None
-                            if pat == 'last':
-                                return None if k == 1 else ' '
-                            if pat == 'text-first':
-                                return 't' if k == 1 else ' '
-                            return None
+                            def gap():
+                                cnt[0] += 1
+                                k = cnt[0]
+                                if pat == 'sp':
+                                    return ' '
+                                if pat == 'nl':
+                                    return '\n\t'
+                                if pat == 'alt':
+                                    return ' ' if k % 2 else 't'
+                                if pat == 'first':
+                                    return ' ' if k == 1 else None
+                                if pat == 'last':
+                                    return None if k == 1 else ' '
+                                if pat == 'text-first':
+                                    return 't' if k == 1 else ' '
+                                return None
 
-                        def build(t, depth):
-                            nm = next(it)
+                            def build(t, depth):
+                                nm = next(it)
+                                kids = []
+                                g = gap()
+                                if g:
+                                    kids.append(R.T(g))
+                                for c in t:
+                                    kids.append(build(c, depth + 1))
+                                    g2 = gap()
+                                    if g2 and not (kids and kids[-1].kind == R.TEXT):
+                                        kids.append(R.T(g2))
+                                attrs = []
+                                if xs and depth == 1:
+                                    attrs.append(('xml:space', xs))
+                                return R.E(nm, attrs, kids)
+
                             kids = []
                             g = gap()
                             if g:
                                 kids.append(R.T(g))
-                            for c in t:
-                                kids.append(build(c, depth + 1))
+                            for t in forest:
+                                kids.append(build(t, 1))
                                 g2 = gap()
-                                if g2 and not (kids and kids[-1].kind == R.TEXT):
+                                if g2 and kids[-1].kind != R.TEXT:
                                     kids.append(R.T(g2))
-                            attrs = []
-                            if xs and depth == 1:
-                                attrs.append(('xml:space', xs))
-                            return R.E(nm, attrs, kids)
-
-                        kids = []
-                        g = gap()
-                        if g:
-                            kids.append(R.T(g))
-                        for t in forest:
-                            kids.append(build(t, 1))
-                            g2 = gap()
-                            if g2 and kids[-1].kind != R.TEXT:
-                                kids.append(R.T(g2))
-                        rootattrs = [('xml:space', 'preserve')] if xs == 'default' else []
-                        docs.append(R.make_doc([R.E('r', rootattrs, kids, ns=[('p', 'u1')])]))
+                            rootattrs = [('xml:space', 'preserve')] if xs == 'default' else []
+                            docs.append(R.make_doc([R.E('r', rootattrs, kids, ns=[('p', 'u1')] + ([('', 'u2')] if defns else []))]))
     return docs
 
 
